@@ -131,6 +131,10 @@ def c18_jobs(tier, seed):
                 if lim is None:
                     inj = {"kind": "line", "n": "sweep", "shard": [sh, shards]}
                 jobs.append(dict(base, id=f"C18-w{wi}-{phase}-lines{sh}", phase=phase, inject=inj, **extra, **warm))
+        # a focused sweep in every tier: every executed line of the resolution itself (MultiTypeMap.__missing__ / resolve, where the
+        # entries of a combination and its call_next continuations are worked out and published) during a cache miss
+        jobs.append(dict(base, id=f"C18-w{wi}-miss-resolve-lines", phase="miss", warm=(probes[2] if mk is W4 else probes[1]),
+                         inject={"kind": "line", "n": "sweep", "only": ["resolve", "__missing__"]}))
     return jobs
 
 
